@@ -1,0 +1,191 @@
+//go:build verif
+
+package ttlv
+
+import (
+	"math/big"
+	"reflect"
+	"sort"
+)
+
+// This file is only compiled with the `verif` build tag. It exposes read-only windows on
+// unexported helpers and registries for the external verification harness. It adds no behaviour.
+
+// VerifPadForLen exposes padForLen.
+func VerifPadForLen(l, padSize int) int { return padForLen(l, padSize) }
+
+// VerifBigIntToBytes exposes bigIntToBytes.
+func VerifBigIntToBytes(v *big.Int, padding int) ([]byte, byte, int) {
+	return bigIntToBytes(v, padding)
+}
+
+// VerifBytesToBigInt exposes bytesToBigInt.
+func VerifBytesToBigInt(v []byte) *big.Int { return bytesToBigInt(v) }
+
+// VerifParseInt exposes parseInt.
+func VerifParseInt(val string, bits int) (int64, error) { return parseInt(val, bits) }
+
+// VerifParseUint exposes parseUint.
+func VerifParseUint(val string, bits int) (uint64, error) { return parseUint(val, bits) }
+
+// VerifComputeNeededBytes exposes computeNeededBytes.
+func VerifComputeNeededBytes(buf []byte) int { return computeNeededBytes(buf) }
+
+// VerifFieldInfo is the parsed form of a `ttlv` struct tag as the library itself sees it.
+type VerifFieldInfo struct {
+	Skip       bool
+	Tag        int
+	Omitempty  bool
+	SetVersion bool
+	HasRange   bool
+	HasStart   bool
+	StartMajor int
+	StartMinor int
+	HasEnd     bool
+	EndMajor   int
+	EndMinor   int
+}
+
+// VerifGetFieldInfo runs the library's own struct-tag parser and tag resolution on a field.
+func VerifGetFieldInfo(fld reflect.StructField) VerifFieldInfo {
+	info := getFieldInfo(fld)
+	if info.tag == "-" {
+		return VerifFieldInfo{Skip: true}
+	}
+	res := VerifFieldInfo{
+		Tag:        getFieldTag(fld, info.tag),
+		Omitempty:  info.omitempty,
+		SetVersion: info.setVersion,
+	}
+	if info.vrange != nil {
+		res.HasRange = true
+		if info.vrange.start != nil {
+			res.HasStart = true
+			res.StartMajor, res.StartMinor = info.vrange.start.major, info.vrange.start.minor
+		}
+		if info.vrange.end != nil {
+			res.HasEnd = true
+			res.EndMajor, res.EndMinor = info.vrange.end.major, info.vrange.end.minor
+		}
+	}
+	return res
+}
+
+// VerifVersionRangeContains exposes parseVersionRange + versionRange.contains.
+func VerifVersionRangeContains(rng string, major, minor int) (bool, error) {
+	r, err := parseVersionRange(rng)
+	if err != nil {
+		return false, err
+	}
+	return r.contains(version{major: major, minor: minor}), nil
+}
+
+// VerifTagForType exposes getTagForType.
+func VerifTagForType(ty reflect.Type) (int, bool) {
+	t, err := getTagForType(ty)
+	return t, err == nil
+}
+
+// VerifIsEnum / VerifIsBitmask expose the type classification used by the codec plans.
+func VerifIsEnum(ty reflect.Type) bool    { return isEnum(ty) }
+func VerifIsBitmask(ty reflect.Type) bool { return isBitmask(ty) }
+
+// VerifRegistry is a deterministic (sorted) dump of the process-wide registries.
+type VerifRegistry struct {
+	Tags         []VerifNamed // tagNames
+	TagsByName   []VerifNamed // tagByName
+	Enums        []VerifEnum
+	Bitmasks     []VerifBitmask
+	TypeTags     []VerifNamed // tagByType: type string -> tag
+	EnumTypes    []VerifNamed // enums: type string -> tag
+	BitmaskTypes []VerifNamed
+}
+
+type VerifNamed struct {
+	Name  string
+	Value int64
+}
+
+type VerifEnum struct {
+	Tag     int
+	ByValue []VerifNamed // enumNames[tag]
+	ByName  []VerifNamed // enumsByName[tag]
+}
+
+type VerifBitmask struct {
+	Tag    int
+	Names  []string     // bitmaskNames[tag]
+	ByName []VerifNamed // bitmaskByName[tag]
+}
+
+func sortNamed(l []VerifNamed) []VerifNamed {
+	sort.Slice(l, func(i, j int) bool {
+		if l[i].Value != l[j].Value {
+			return l[i].Value < l[j].Value
+		}
+		return l[i].Name < l[j].Name
+	})
+	return l
+}
+
+// VerifDumpRegistry returns a snapshot of the registries.
+func VerifDumpRegistry() VerifRegistry {
+	var r VerifRegistry
+	for v, n := range tagNames {
+		r.Tags = append(r.Tags, VerifNamed{n, int64(v)})
+	}
+	for n, v := range tagByName {
+		r.TagsByName = append(r.TagsByName, VerifNamed{n, int64(v)})
+	}
+	for ty, v := range tagByType {
+		r.TypeTags = append(r.TypeTags, VerifNamed{ty.String(), int64(v)})
+	}
+	for ty, v := range enums {
+		r.EnumTypes = append(r.EnumTypes, VerifNamed{ty.String(), int64(v)})
+	}
+	for ty, v := range bitmasks {
+		r.BitmaskTypes = append(r.BitmaskTypes, VerifNamed{ty.String(), int64(v)})
+	}
+	tags := map[int]bool{}
+	for t := range enumNames {
+		tags[t] = true
+	}
+	for t := range enumsByName {
+		tags[t] = true
+	}
+	for t := range tags {
+		e := VerifEnum{Tag: t}
+		for v, n := range enumNames[t] {
+			e.ByValue = append(e.ByValue, VerifNamed{n, int64(v)})
+		}
+		for n, v := range enumsByName[t] {
+			e.ByName = append(e.ByName, VerifNamed{n, int64(v)})
+		}
+		sortNamed(e.ByValue)
+		sortNamed(e.ByName)
+		r.Enums = append(r.Enums, e)
+	}
+	sort.Slice(r.Enums, func(i, j int) bool { return r.Enums[i].Tag < r.Enums[j].Tag })
+	mtags := map[int]bool{}
+	for t := range bitmaskNames {
+		mtags[t] = true
+	}
+	for t := range bitmaskByName {
+		mtags[t] = true
+	}
+	for t := range mtags {
+		b := VerifBitmask{Tag: t, Names: append([]string(nil), bitmaskNames[t]...)}
+		for n, v := range bitmaskByName[t] {
+			b.ByName = append(b.ByName, VerifNamed{n, int64(v)})
+		}
+		sortNamed(b.ByName)
+		r.Bitmasks = append(r.Bitmasks, b)
+	}
+	sort.Slice(r.Bitmasks, func(i, j int) bool { return r.Bitmasks[i].Tag < r.Bitmasks[j].Tag })
+	sortNamed(r.Tags)
+	sortNamed(r.TagsByName)
+	sortNamed(r.TypeTags)
+	sortNamed(r.EnumTypes)
+	sortNamed(r.BitmaskTypes)
+	return r
+}
